@@ -73,9 +73,7 @@ theorem finishFail_ord {hist : List Ev} {s : S} {it : Item} {rest : List Item} (
     have := sublist_drop_mid _ msg _ _ h2
     simpa [List.append_assoc] using this
   | recI pid msg =>
-    have := waitRel_ord s pid msg
-    refine ord_congr (s := s) ?_ this.1 this.2
-    exact ⟨I.q0, by have := I.q1; simpa only [seq1, ackMsgs, List.filterMap_cons] using this⟩
+    exact ⟨I.q0, by have := I.q1; simpa only [finishFail, seq1, ackMsgs, List.filterMap_cons] using this⟩
   | compI pid msg =>
     have := waitRel_ord s pid msg
     refine ord_congr (s := s) ?_ this.1 this.2
@@ -127,14 +125,14 @@ theorem ord_step (hist : List Ev) (s : S) (e : Ev) (s' : S) (I : Ord hist s) (h 
           simp only [drain]
           cases it with
           | ackI p m => exact absurd rfl (hne _ (List.mem_cons_self) p m)
-          | recI p m => simp only [finishFail] at h1 ⊢; exact ⟨h1.1.trans (waitRel_ord t p m).1, h1.2.trans (waitRel_ord t p m).2⟩
+          | recI p m => simp only [finishFail] at h1 ⊢; exact h1
           | compI p m => simp only [finishFail] at h1 ⊢; exact ⟨h1.1.trans (waitRel_ord t p m).1, h1.2.trans (waitRel_ord t p m).2⟩
-      have hk := key ((s0.recQ.map fun x => Item.recI x.1 x.2) ++ (s0.compQ.map fun x => Item.compI x.1 x.2)) { s0 with ackQ := [], recQ := [], compQ := [] }
-        (by intro it hit p m; simp only [List.mem_append, List.mem_map] at hit
-            rcases hit with ⟨x, _, rfl⟩ | ⟨x, _, rfl⟩ <;> simp)
+      have hk := key (s0.compQ.map fun x => Item.compI x.1 x.2) { s0 with ackQ := [], recQ := [], compQ := [] }
+        (by intro it hit p m; simp only [List.mem_map] at hit
+            obtain ⟨x, _, rfl⟩ := hit; simp)
       unfold requeue
       generalize hd : drain (fun s it => finishFail s it) { s0 with ackQ := [], recQ := [], compQ := [] }
-        ((s0.recQ.map fun x => Item.recI x.1 x.2) ++ (s0.compQ.map fun x => Item.compI x.1 x.2)) = t at hk ⊢
+        (s0.compQ.map fun x => Item.compI x.1 x.2) = t at hk ⊢
       have hst : t.stored = s.stored := hk.1.trans e5
       have haq : t.ackQ = [] := hk.2
       refine ⟨?_, ?_⟩
